@@ -6,6 +6,8 @@ import Relic.Driver.Cms
 import Relic.Driver.Cab
 import Relic.Driver.PS
 import Relic.Driver.MSI
+import Relic.Driver.Jar
+import Relic.Driver.Apk
 import Relic.Driver.C20
 import Relic.Driver.C15
 import Relic.Driver.C06
@@ -31,6 +33,8 @@ def dispatch (line : String) : String :=
   | "CAB" :: rest => Relic.Driver.Cab.handle rest
   | "PS" :: rest => Relic.Driver.PS.handle rest
   | "MSI" :: rest => Relic.Driver.MSI.handle rest
+  | "JAR" :: rest => Relic.Driver.Jar.handle rest
+  | "APK" :: rest => Relic.Driver.Apk.handle rest
   | "C20" :: rest => Relic.Driver.C20.handle rest
   | "C15" :: rest => Relic.Driver.C15.handle rest
   | "C06" :: rest => Relic.Driver.C06.handle rest
